@@ -192,3 +192,41 @@ func HarnessC02Empty() {
 	vAssert(err == nil, "construct-with-empty-bodies-renders-without-error")
 	vAssert(out == exp, "exactly-the-first-truthy-branch-is-rendered")
 }
+
+
+// HarnessC02Chain: an unparenthesised chain of ternaries a ? x : b ? y : z selects like nested @if/@elseif/@else;
+// a condition that is an array literal with a failing element fails the render wherever it is reached.
+func HarnessC02Chain() {
+	a, b := vBool("a"), vBool("b")
+	data := map[string]any{"a": a, "b": b, "zero": 0, "one": 1}
+	var src, want string
+	fails := false
+	switch vChoice("shape", 6) {
+	case 0:
+		src = "{{ a ? \"A\" : b ? \"B\" : \"C\" }}"
+		want = map[bool]string{true: "A", false: map[bool]string{true: "B", false: "C"}[b]}[a]
+	case 1: // the value chosen by the first condition is falsy itself: it must not be taken for the next condition
+		src = "{{ a ? zero : b ? \"B\" : \"C\" }}"
+		want = map[bool]string{true: "0", false: map[bool]string{true: "B", false: "C"}[b]}[a]
+	case 2:
+		src = "{{ a ? \"A\" : (b ? \"B\" : \"C\") }}"
+		want = map[bool]string{true: "A", false: map[bool]string{true: "B", false: "C"}[b]}[a]
+	case 3: // array literal as a condition: its elements are evaluated, a failing one fails the render
+		src = "@if(a)x@elseif([one, nope])y@else z@end"
+		want, fails = "x", !a
+	case 4:
+		src = "{{ [one, nope, one] ? \"T\" : \"F\" }}"
+		fails = true
+	default:
+		src = "@each(v in [1, 2]){{ v }}@breakIf([zero, nope])@end"
+		fails = true
+	}
+	out, err := EvaluateString(src, data)
+	vCover("rendered")
+	if fails {
+		vAssert(err != nil && out == "", "error-in-an-evaluated-condition-fails-the-render")
+		return
+	}
+	vAssert(err == nil, "chain-renders-without-error")
+	vAssert(out == want, "exactly-the-first-truthy-branch-is-rendered")
+}
